@@ -84,6 +84,10 @@ RECURSIVE Fix(_)
 Fix(S) == IF Reach(S) = S THEN S ELSE Fix(Reach(S))
 OrderIndependent == phase = "done" => exported = Fix({ n \in Nodes : RootOf(n) \in named })
 
+\* the package list is exactly the named packages and the roots of what was reached; the latter are the indirect ones
+ListedExact == phase = "done" => /\ listed = named \cup { RootOf(n) : n \in exported }
+                                 /\ indirect = listed \ named
+
 NodeName(n) == IF n[2] = "" THEN n[1] ELSE n[1] \o "." \o n[2]
 RECURSIVE SetToSeq(_)
 SetToSeq(S) == IF S = {} THEN <<>> ELSE LET x == CHOOSE y \in S : TRUE IN <<x>> \o SetToSeq(S \ {x})
